@@ -44,7 +44,7 @@ def _ao_work(ps):
             if ex.verdict != "done":
                 v.append(("C23/ao/%s" % ex.verdict, "ended with %s" % ex.verdict))
             else:
-                pre = "+".join(op[0] for op in p["pre"]) or "none"
+                pre = ("+".join(op[0] for op in p["pre"]) or "none") + ("/unnamed" if p.get("unnamed") else "")
                 for k, n in enumerate(ex.obs["names"]):
                     if n["state_name"] != n["config"] or not n["state_fn_ok"] or n["current_state"] != n["config"]:
                         v.append(("C23/ao/names/pre=%s" % pre, "active object (operations before start_at: %r), after step %d: state_name %r, "
@@ -70,6 +70,7 @@ def ao_part(res, tier):
                 for base, _ in gen(f):
                     for pre in c20ao.PRE:
                         ps.append({"spec": hsmrun.dump(hsmrun.norm(base)), "pre": [list(x) for x in pre]})
+                    ps.append({"spec": hsmrun.dump(hsmrun.norm(base)), "pre": [], "unnamed": True})
     chunks = [ps[i::ncpu() * 4] for i in range(ncpu() * 4)]
     n = 0
     for part in pmap(_ao_work, [c for c in chunks if c], ncpu()):
@@ -77,7 +78,7 @@ def ao_part(res, tier):
             n += 1
             for key, what in v:
                 if sum(1 for x in res.violations if x.key == key) < 2:
-                    res.add(Violation(key, what, {"ao": True, "spec": p["spec"], "pre": p["pre"]}))
+                    res.add(Violation(key, what, {"ao": True, "spec": p["spec"], "pre": p["pre"], "unnamed": bool(p.get("unnamed"))}))
     res.coverage["ao_part"] = {"executions": n, "forests_upto": N}
     res.coverage["evaluations"] = res.coverage.get("evaluations", 0) + n
     res.coverage["traces_validated_against_impl"] = res.coverage["evaluations"]
@@ -87,7 +88,7 @@ def replay(witness):
     if witness.get("ao"):
         from mc.common import Violation
         res = Result(PID)
-        for _, v in _ao_work([{"spec": witness["spec"], "pre": witness["pre"]}]):
+        for _, v in _ao_work([{"spec": witness["spec"], "pre": witness["pre"], "unnamed": witness.get("unnamed")}]):
             for key, what in v:
                 print(key, what)
                 res.add(Violation(key, what, witness))
